@@ -1,10 +1,11 @@
-\* HTTP request life cycle: every table with at most 1 grant-carrying path
+\* HTTP request life cycle: every table with at most 2 grant-carrying paths, one an ancestor of the other
 SPECIFICATION Spec
 CONSTANTS
     NameOrder <- MCHttpNames
     GrantPathOrder <- MCHttpGrant
     OptOrder <- MCOptOrder
-    MaxGranted = 1
+    MaxGranted = 2
+    ChainOnly = TRUE
     AdminMaxGranted = 0
     MaxSegs = 0
     RelPathOrder <- MCEmpty
